@@ -14,7 +14,7 @@ import warnings
 from asyncfix.errors import FIXMessageError
 from asyncfix.protocol.schema import FIXSchema, SchemaField
 
-from vfx.run import Cell
+from vfx.run import Cell, REPO
 
 warnings.simplefilter("ignore")
 
@@ -396,7 +396,7 @@ def cells(tier):
                         dict(dictionary=dname, via="FIXSchema.validate on a fresh schema object: a first message, then a SEQNUM field with a symbolic value",
                              checks="the EndSeqNo=0 special case stays confined to tag 16; the verdict does not depend on earlier validations"),
                         goals=["judged"], budget_s=1200))
-    for path in ("/repo/tests/FIX44.xml", "/repo/tests/TT-FIX44.xml"):
+    for path in (REPO + "/tests/FIX44.xml", REPO + "/tests/TT-FIX44.xml"):
         fields = sorted(enum_fields(path), key=lambda f: int(f.tag))
         name = path.split("/")[-1]
         chunk = 12
